@@ -41,6 +41,22 @@ static void lenp_nested(void)
     (void)flenp_memory_to_sink(LENP_VARIABLE, &v, pay, sizeof pay);
     (void)flenp_memory_to_sink(LENP_BE_32BIT, &v, pay, sizeof pay);
     (void)flenp_memory_encode(LENP_LE_16BIT, &lpb, pay, sizeof pay);
+    {
+        /* ... and the buffer and chunk-list entry points, with another kind and another length than the outer call is likely to have */
+        unsigned char m1[7] = { 1, 2, 3, 4, 5, 6, 7 }, m2[300];
+        memset(m2, 9, sizeof m2);
+        ByteBuffer b1 = BYTE_BUFFER_INIT(m1, sizeof m1, sizeof m1, 2), b2 = BYTE_BUFFER_INIT(m2, sizeof m2, sizeof m2, 0);
+        ByteBuffer cs2[2] = { b1, b2 };
+        ByteChunks bc = { 2, 0, cs2 };
+        LengthPrefixChunks lpc;
+        memset(&lpc, 0xA5, sizeof lpc);
+        lpc.payload.chunks = 2; lpc.payload.active = 0; lpc.payload.chunk = cs2;
+        (void)flenp_chunks_to_sink(LENP_LE_32BIT, &v, &bc);
+        (void)flenp_chunks_to_sink(LENP_VARIABLE, &v, &bc);
+        (void)flenp_chunks_use(LENP_BE_16BIT, &lpc);
+        (void)flenp_buffer_to_sink(LENP_LE_16BIT, &v, &b2);
+        (void)flenp_buffer_encode(LENP_BE_32BIT, &lpb, &b1);
+    }
     nest_depth--;
 }
 static ssize_t src_chunk(void *drv, void *buf, size_t n)
